@@ -260,6 +260,46 @@ pub fn run(rep: &mut Rep) {
         }
     }
     m.rep.note("alias_encodings", json!(alias_total));
+    // the external nullifier is chosen by the application and may be a small number: messages whose external
+    // nullifier is 0, 1, 7, 2^64, 2^190 or p-1 and every alias of it (small values have the most aliases, and their
+    // alias v + p shares its most significant limb with p)
+    {
+        let small: Vec<BigUint> = vec![BigUint::from(0u8), BigUint::from(1u8), BigUint::from(7u8), BigUint::from(1u8) << 64, BigUint::from(1u8) << 190, &p - 1u32];
+        let take = if thorough { small.len() } else { 3 };
+        for (si, ev) in small.iter().take(take).enumerate() {
+            let extf = big_to_fr(ev);
+            let sig = format!("small-ext-{si}").into_bytes();
+            let preq = enc_prove_request(&case.secret, case.index as u64, &Fr::from(case.limit), &Fr::from(case.id), &extf, &sig);
+            let mut mm = vec![];
+            if !matches!(catch(|| c.rln.generate_rln_proof(Cursor::new(preq), &mut mm).map_err(|e| e.to_string())), Ok(Ok(()))) {
+                m.rep.inconclusive("could not generate a message with a small external nullifier".to_string());
+                continue;
+            }
+            let vreq = enc_verify_request(&mm, &sig);
+            if v_rln(&c, &vreq) != V::True {
+                m.rep.inconclusive("control failed: message with a small external nullifier not accepted".to_string());
+                continue;
+            }
+            for k in 1u32..=6 {
+                let a = ev + &p * k;
+                if a >= two256 {
+                    break;
+                }
+                let mut m2 = mm.clone();
+                m2[128 + 32..128 + 64].copy_from_slice(&big_to_le32(&a));
+                let r2 = enc_verify_request(&m2, &sig);
+                for (which, v) in [("verify", v_raw(&c, &m2)), ("verify_rln_proof", v_rln(&c, &r2)), ("verify_with_roots", v_roots(&c, &r2, &roots1))] {
+                    m.rep.ev();
+                    m.rep.stratum(format!("alias|small-external_nullifier#{si}|k={k}|{which}"));
+                    if v == V::True {
+                        m.rep.violation(format!("{which}:accepts-alias-of-external_nullifier"), json!({"value": ev.to_string(), "k": k, "message": hex(&m2)}));
+                    }
+                }
+                // a second message with the alias must not be usable for recovery against the original either way
+                m.crash("recover_id_secret(pair)", "small-ext-alias", &v_recover(&c, &mm, &m2), json!({"k": k}));
+            }
+        }
+    }
     // recovery: aliases must not crash it, and an alias of x/y must not change the result silently into a crash
     for (fi, encs) in alias_enc.iter().enumerate() {
         if let Some((_, enc)) = encs.first() {
